@@ -4,6 +4,7 @@ import BioscrapeModel.Model.ModelState
 import BioscrapeModel.Model.Priors
 import BioscrapeModel.Model.Inference
 import BioscrapeModel.Model.Sensitivity
+import BioscrapeModel.Model.Deterministic
 
 /-
 `modeldriver`: one JSON job per input line, one JSON answer per output line
@@ -365,6 +366,18 @@ def jobSens (j : Json) : Except String Json := do
                      ("Z", encList (computeZj meth m x p pj t h)),
                      ("f", encList (evaluateModel m x p t))]
 
+/-- `rhs_global` at a list of (state, time) points. -/
+def jobRhs (j : Json) : Except String Json := do
+  let m ← decSimModel (α := α) j
+  let p ← getNumList (α := α) j "p"
+  let pts ← getArr j "points"
+  let outs ← pts.toList.mapM (fun pt => do
+    let x ← getNumList (α := α) pt "x"
+    let t : α ← getNum pt "t"
+    let r := rhsGlobal m x p t
+    return Json.mkObj [("dx", encList r.1), ("x", encList r.2.1), ("p", encList r.2.2)])
+  return Json.mkObj [("points", Json.arr outs.toArray)]
+
 def dispatch (op : String) (j : Json) : Except String Json :=
   match op with
   | "prop" => jobProp (α := α) j
@@ -378,6 +391,7 @@ def dispatch (op : String) (j : Json) : Except String Json :=
   | "prior" => jobPrior (α := α) j
   | "infer" => jobInfer (α := α) j
   | "sens" => jobSens (α := α) j
+  | "rhs" => jobRhs (α := α) j
   | _ => throw s!"unknown op {op}"
 end
 
